@@ -1,7 +1,7 @@
 (* C02 - a submission is marked correct exactly when no shown negative feedback fired. *)
-From Coq Require Import ZArith QArith List String Bool.
+From Coq Require Import ZArith QArith List String Bool Permutation.
 Import ListNotations.
-From Pedal Require Import lib.PyMini lib.Assoc lib.StableSort model.C01_Resolver gen.C01_Gen model.C01_Run proof.C01_Lemmas.
+From Pedal Require Import lib.PyMini lib.Assoc lib.StableSort model.C01_Resolver gen.C01_Gen model.C01_Run proof.C01_Lemmas proof.C02_Order.
 Open Scope string_scope.
 Open Scope list_scope.
 
@@ -18,3 +18,17 @@ Theorem C02_correct_iff :
     (r_correct r = true <-> forall f, In f all -> shown s f = true -> f_correct f = true).
 Proof. exact (correct_iff gen_category_priority gen_aliases gen_offset). Qed.
 Print Assumptions C02_correct_iff.
+
+(* the verdict does not depend on the order in which the feedback objects were recorded: two reports holding the same
+   feedback (any permutation, any split between the active and the ignored list) and the same suppressions are
+   both marked correct or both marked incorrect *)
+Theorem C02_verdict_is_independent_of_recording_order :
+  forall act ign act' ign' calls r r',
+    the_resolve act ign calls = Ok r ->
+    the_resolve act' ign' calls = Ok r' ->
+    Permutation (act ++ ign) (act' ++ ign') ->
+    (forall f, In f (act ++ ign) -> not_impersonating f) ->
+    (forall f, In f (act ++ ign) -> msgs_present (the_supp calls) f) ->
+    r_correct r = r_correct r'.
+Proof. exact correct_order_independent. Qed.
+Print Assumptions C02_verdict_is_independent_of_recording_order.
